@@ -23,7 +23,7 @@ def breakdown_cfg(rng: random.Random, tier: str) -> gen.GenCfg:
         ops_per_step=(2, 5) if big else (1, 3),
         base=rng.choice([0, 1000, 10 ** 6, 1_700_000_000_000_000]),
         fmt=rng.choice(["json", "json.gz"]),
-        unlinked_head=rng.choice([0, 0, 1, 2]),
+        unlinked_head=rng.choice([0, 0, 1, 2]), p_nocorr_head=rng.choice([0.0, 0.5]),
         gpu_annotations=rng.random() < 0.5, p_nested_annotation=rng.choice([0.0, 0.2]), bwd_annotation=rng.random() < 0.3,
     )
 
